@@ -213,6 +213,73 @@ def rule_z4(repo, col):
                construct="def evaluate: pipeline", function="Evaluatable.evaluate")
 
 
+def rule_z5(repo, col):
+    """set_evidence of the weight-based evaluators: the evidence is rejected exactly when the atom's CURRENT weight on the observed polarity is the semiring zero
+    (scenario table over value, zero(current positive weight), zero(current negative weight); to_evidence() results are the constants one/zero)"""
+    # Semiring.to_evidence: (one, zero) for a positive observation, (zero, one) otherwise
+    te = repo.func(EV, "Semiring.to_evidence")
+    rets = [norm(r.value) for r in walk_no_nested(te.node) if isinstance(r, ast.Return) and r.value is not None]
+    te_const = rets == ["(self.one(), self.zero()) if sign > 0 else (self.zero(), self.one())"]
+    n = 0
+    for c in sorted(repo.all_classes(), key=lambda c_: (c_.module.name, c_.name)):
+        f = c.methods.get("set_evidence")
+        if f is None or len(f.params) != 3 or not any(isinstance(x, ast.Raise) for x in ast.walk(f.node)):
+            continue
+        if not any(isinstance(x, ast.Raise) and x.exc is not None and "InconsistentEvidenceError" in norm(x.exc) for x in ast.walk(f.node)):
+            continue
+        m = f.module
+        idx, val = f.params[1], f.params[2]
+        paths = dtable.extract(f.node, opaque_loops=True)
+        tev = None
+        for p_ in paths:
+            for fn, a, node_ in p_.calls:
+                if fn.endswith(".to_evidence") and len(a) >= 2:
+                    tev = (fn, a, node_)
+        if tev is None:
+            raise AnalysisError("%s.set_evidence: to_evidence call not found" % c.name)
+        w0, w1 = tev[1][0], tev[1][1]
+        if not ("self.weights" in w0 and "self.weights" in w1 and w0.endswith("[0]") and w1.endswith("[1]")):
+            raise AnalysisError("%s.set_evidence: current weights not understood: %s, %s" % (c.name, w0, w1))
+        # is_zero(<to_evidence(...)>[k]) atoms as they occur (after substitution) in the path conditions
+        te_atoms = {}
+        for p_ in paths:
+            for s_, _, _ in p_.conds:
+                try:
+                    e_ = ast.parse(s_, mode="eval").body
+                except SyntaxError:
+                    continue
+                for x in ast.walk(e_):
+                    if isinstance(x, ast.Call) and isinstance(x.func, ast.Attribute) and x.func.attr == "is_zero" and len(x.args) == 1 and isinstance(x.args[0], ast.Subscript) \
+                            and isinstance(x.args[0].value, ast.Call) and isinstance(x.args[0].value.func, ast.Attribute) and x.args[0].value.func.attr == "to_evidence" \
+                            and isinstance(x.args[0].slice, ast.Constant) and x.args[0].slice.value in (0, 1):
+                        te_atoms[norm(x)] = x.args[0].slice.value
+        n += 1
+        bad = []
+        for v in (True, False):
+            for zp in (True, False):
+                for zn in (True, False):
+                    mapping = [("%s.is_zero(%s)" % (tev[0].rsplit(".", 1)[0], w0), zp), ("%s.is_zero(%s)" % (tev[0].rsplit(".", 1)[0], w1), zn)]
+                    if te_const:
+                        mapping += [(a_, (not v) if k_ == 0 else v) for a_, k_ in sorted(te_atoms.items())]
+                    mapping += [(val, v)]
+                    ps = [p_ for p_ in dtable.compatible(paths, mapping)]
+                    und = [s_ for p_ in ps for s_, _, _ in p_.conds if dtable.eval_atom(s_, mapping, None) is None]
+                    if und:
+                        raise AnalysisError("%s.set_evidence: condition not decidable in the scenario domain: %s" % (c.name, und[0][:100]))
+                    if len(ps) != 1:
+                        raise AnalysisError("%s.set_evidence: %d paths for one scenario" % (c.name, len(ps)))
+                    raises = ps[0].end == "raise"
+                    want = (v and zp) or (not v and zn)
+                    if raises != want:
+                        bad.append("observed %s, current positive weight %s, current negative weight %s: %s" % (
+                            "true" if v else "false", "zero" if zp else "non-zero", "zero" if zn else "non-zero", "rejected" if raises else "accepted"))
+        col.decide("Z5", m, f.node, not bad, "%s.set_evidence rejects evidence exactly when the current weight of the observed polarity is zero" % c.name,
+                   "%s.set_evidence decides inconsistency wrongly (%s): evidence must be rejected exactly when the atom's current weight on the observed polarity is the semiring zero - "
+                   "otherwise 0.0::a with evidence(a) is answered instead of raising InconsistentEvidenceError (the weights returned by to_evidence() are the constants one/zero and say nothing)"
+                   % (c.name, "; ".join(bad[:2])), construct="%s.set_evidence: inconsistency guard" % c.name, function=f.qualname)
+    col.floor("Z5.set_evidence_guards", n, 2)
+
+
 def run(repo, col):
     col.rule("Z1", "every evaluator that normalises by the evidence weight rejects zero-weight evidence")
     col.rule("Z2", "transformation graph discipline (ground -> break_cycles -> compile)")
@@ -222,3 +289,5 @@ def run(repo, col):
     rule_z2(repo, col)
     rule_z3(repo, col)
     rule_z4(repo, col)
+    col.rule("Z5", "set_evidence: inconsistency decided on the current weight of the observed polarity")
+    rule_z5(repo, col)
